@@ -218,6 +218,16 @@ class Pipe:
         if k == 'fold':
             self.acc = rv
             return self.start_item(ex, st)
+        if k == 'key':       # min_by_key / max_by_key: unsigned integer keys (usize, Instant as a time count); first minimum / last maximum wins
+            key = rv
+            while isinstance(key, Ptr): key = key.get()
+            if not (z3.is_expr(key) and is_bv(key)): raise Unsupported('min_by_key with a key that is not an unsigned integer: %r' % (key,))
+            if self.acc is None:
+                self.acc = (key, self.cur); return self.start_item(ex, st)
+            take = ULT(key, self.acc[0]) if self.mode == 'min_by_key' else Not(ULT(key, self.acc[0]))
+            def yes(p, ex, st, key=key):
+                p.acc = (key, p.cur); return p.start_item(ex, st)
+            return self.branch(ex, st, take, yes, lambda p, ex, st: p.start_item(ex, st))
         if k == 'cmp':       # min_by / max_by comparator result (std: min_by keeps the first of equal minima, max_by the last of equal maxima)
             if not isinstance(rv, Enum): raise Unsupported('comparator result %r' % (rv,))
             d = rv.disc
@@ -265,6 +275,9 @@ class Pipe:
                 self.acc = self.cur; return self.start_item(ex, st)
             self.await_kind = 'cmp'
             return self._call(ex, st, self.data, [box(self.acc), box(self.cur)])
+        if m in ('min_by_key', 'max_by_key'):
+            self.await_kind = 'key'
+            return self._call(ex, st, self.data, [box(self.cur)])
         raise Unsupported('iterator consumer ' + m)
 
     def consume_pred(self, ex, st, b):
@@ -308,6 +321,7 @@ class Pipe:
         if m == 'for_each': return []
         if m == 'fold': return self.acc
         if m in ('min_by', 'max_by'): return some(self.acc) if self.acc is not None else none()
+        if m in ('min_by_key', 'max_by_key'): return some(self.acc[1]) if self.acc is not None else none()
         if m == 'sum_f64':
             s = z3.FPVal(0.0, z3.Float64())     # std: f64::sum folds from -0.0?  (0.0 + x keeps x's value for all x except -0.0 sign) — see note in models list
             s = z3.FPVal(-0.0, z3.Float64())
@@ -555,12 +569,33 @@ def it_pred(ex, st, callee, args):
     return run_pipe(ex, st, iter_slot(ex, p), mode, args[1])
 
 
-@h(r'^<.* as Iterator>::(min_by|max_by)::<.*>$')
+@h(r'^<.* as Iterator>::(min_by|max_by|min_by_key|max_by_key)::<.*>$')
 def it_min_by(ex, st, callee, args):
     it = ex.deref(args[0])
     if not isinstance(it, Iter): return NotImplemented
-    mode = re.search(r'as Iterator>::(min_by|max_by)::', callee).group(1)
+    mode = re.search(r'as Iterator>::(min_by_key|max_by_key|min_by|max_by)::', callee).group(1)
     return run_pipe(ex, st, box(it), mode, args[1])
+
+
+@h(r'^%s::<.*>::swap_remove$' % _SEQ)
+def seq_swap_remove(ex, st, callee, args):
+    """Vec::swap_remove(i): panics when i >= len; the last element takes the removed one's place"""
+    l = as_list(ex, args[0]); n = len(l.items); i = args[1]
+    okc = ULT(i, n)
+    st.path.oblige('no panic: swap_remove index within the vector', okc, callee); st.path.assume(okc)
+    def mk(k):
+        def t(ex, st, a):
+            ll = as_list(ex, a[0]); v = ll.items[k]; ll.items[k] = ll.items[-1]; ll.items.pop()
+            return v
+        return t
+    alts = []
+    for k in range(n):
+        c = simp(i == k)
+        if z3.is_false(c): continue
+        alts.append((c, mk(k)))
+    if not alts: raise Unsupported('swap_remove on an empty vector (panics)')
+    if len(alts) == 1 and z3.is_true(alts[0][0]): return alts[0][1](ex, st, args)
+    return Fork(alts)
 
 
 @h(r'^<.* as Iterator>::fold::<.*>$')
